@@ -1,7 +1,13 @@
 """C13 — EVSEs accept exactly their allowable pilots and advertise truthful limits."""
 from __future__ import annotations
 
+import copy
+import io
+import json
 import math
+import os
+import pickle
+import tempfile
 from datetime import datetime
 from fractions import Fraction
 
@@ -24,33 +30,63 @@ REQUIRED_THEOREMS = [
     "Acn.C13.registered_ids_nodup", "Acn.C13.registered_last_wins", "Acn.C13.registered_consistent_iff",
     "Acn.C13.info_cache_eq", "Acn.C13.info_cache_unknown", "Acn.C13.info_cache_no_index_error",
     "Acn.C13.advertised_values_accepted", "Acn.C13.advertised_accepted_net",
+    # save / resume steps (from_json(to_json())) anywhere in the history of a network
+    "Acn.C13.restore_history_eq", "Acn.C13.restore_iface_eq", "Acn.C13.advertised_accepted_restored",
 ]
 BUDGET = {"quick": 1500, "thorough": 40000, "search": 8000}
 TRUSTED = ["numpy.isclose / Python float comparison semantics (modelled as |a-b| <= atol)",
            "IEEE-754 rounding at the open edge of the tolerance (oracle abstains within 1e-9 of the edge; "
            "the dyadic exact-edge stream tests the edge itself without rounding)",
            "collections.OrderedDict / dict-comprehension semantics (modelled by setStation / stationIndex) and "
-           "numpy indexing of the cached per-station containers"]
+           "numpy indexing of the cached per-station containers",
+           "json / pickle / copy of the standard library (the model's Saved.load takes the `_EVSEs` entries in the "
+           "order the writer emitted them and the containers verbatim; that the file really carries them so is tied "
+           "by the correspondence on every save / resume step)"]
 ASSUMPTIONS = ["theorems are over an arbitrary linear ordered field; the implementation computes in doubles",
-               "the advertised-info theorems take the network as the result of register_evse calls; constraint "
-               "edits (add / remove / update) do not enter the model and are tied by the correspondence only "
-               "(the description must be unchanged by them)",
-               "advertised_accepted_net assumes well-formed EVSE parameters (min <= max, deadband end <= max)"]
+               "the advertised-info theorems take the network as the result of register_evse calls and save / resume "
+               "steps; constraint edits (add / remove / update) do not enter the model and are tied by the "
+               "correspondence only (the description must be unchanged by them, also when a save / resume step sits "
+               "between them)",
+               "in the model a save / resume step sends the network's containers through Saved (entries of `_EVSEs` "
+               "re-inserted into a fresh dict, cached arrays verbatim); the EVSE / EV / battery objects themselves come "
+               "back unchanged (their codecs are C09's); the correspondence and the oracle check per station ID that "
+               "pilot, occupant and battery state are the saved ones",
+               "advertised_accepted_net / advertised_accepted_restored assume well-formed EVSE parameters (min <= max, "
+               "deadband end <= max)",
+               "site-factory cases: the list of stations a factory registers (id, EVSE parameters) is read off a "
+               "freshly built factory network that never went through a save; that the factories build the documented "
+               "sites is C16's"]
 RULE = ("per case a ChargingNetwork of 1-7 EVSEs (continuous / deadband / finite, parameters incl. unsorted, duplicated, "
         "zero-free rate lists and infinite max; always a non-empty allowable interval) registered in an order that is not the sorted order of their ids; ~75% of "
         "the cases hold several stations and most of those hold SIBLINGS: same class with equal min_rate/max_rate and a "
         "different allowable set (other deadband end, other intermediate finite steps), identical twins, another class with "
         "the same advertised pair, same set written differently; ~10% register an id twice (the later EVSE replaces the "
-        "earlier one); 0-3 constraint edits (add / remove / update) follow the registrations. The network cache, the three "
+        "earlier one); ~6% of the EVSEs go through EVSE.from_json(to_json()) before they are registered; 0-3 constraint "
+        "edits (add / remove / update) follow the registrations. Every 30th case is a network of one of the package's "
+        "site factories (caltech_acn with both EVSE types, other voltage / capacity, basic EVSEs; jpl_acn; office001_acn; "
+        "simple_acn with ids in non-sorted order), whose registration order is not the sorted order of the ids. "
+        "SAVE / RESUME steps (~60% of the cases hold at least one, 1-2 per place) occur between the registrations (also before the "
+        "first, i.e. of the empty network), between / after the constraint edits (= before the first use), between the "
+        "operations (with EVs connected and pilots applied) and after the last, by seven routes: "
+        "ChargingNetwork.from_json(to_json()) as string / text buffer / file on disk, Simulator.from_json(to_json()) as "
+        "string / text buffer followed by update_scheduler (the Interface is then the one handed to the new algorithm), "
+        "copy.deepcopy, pickle; the history continues on the object that comes back. The network cache, the three "
         "Interface accessors (for every registered id and unknown ids; through a new Interface and through one that exists "
-        "since before the first registration) and infrastructure_info() are read after EVERY "
-        "registration, after the constraint edits and after the operations, the handed-out InfrastructureInfo copy is "
-        "scribbled over, and every value advertised for a station is sent to that station. Then a sequence of 1-8 "
+        "since before the first registration / since the last resume) and infrastructure_info() are read after EVERY "
+        "registration and EVERY save / resume step, after the constraint edits and after the operations, the handed-out InfrastructureInfo copy is "
+        "scribbled over, and every value advertised for a station is sent to that station (before the first use, after "
+        "every resume between the uses, at the end). Everything is judged per station ID against the case's own "
+        "parameters for that ID (documented description, a freshly constructed EVSE), never against the resumed object; "
+        "after a resume every station, looked up by ID, must hold the pilot / occupant / battery state it was saved with. "
+        "Then a sequence of 1-8 "
         "operations (validity query, set_pilot with/without connected EV, plugin, plugin-when-occupied, unplug), each "
         "addressed to one of the stations, with pilots at every boundary of the target's or a sibling's allowable set ± "
-        "{0,1e-4,5e-4,9.99e-4,1e-3,1.001e-3,2e-3}, NaN, negatives, and an exact dyadic-edge stream; "
+        "{0,1e-4,5e-4,9.99e-4,1e-3,1.001e-3,2e-3}, NaN, negatives, and an exact dyadic-edge stream (site cases: also the "
+        "lowest non-zero step of each EVSE type of the site sent to stations of every type); "
         "non-trivial = at least one pilot within 2.5e-3 of a boundary of the allowable set, a rejection with an EV "
-        "connected, or two stations of one class with equal min/max and different allowable sets; distinct by hash of the case")
+        "connected, two stations of one class with equal min/max and different allowable sets, or a save / resume of a "
+        "network whose registration order is not the sorted id order with different descriptions at the permuted "
+        "positions; distinct by hash of the case")
 
 ATOL = 1e-3
 OFFS = [0.0, 1e-4, -1e-4, 5e-4, -5e-4, 9.99e-4, -9.99e-4, 1e-3, -1e-3, 1.001e-3, -1.001e-3, 2e-3, -2e-3, 0.5, -0.5, 3.0, -3.0]
@@ -58,6 +94,16 @@ OFFS = [0.0, 1e-4, -1e-4, 5e-4, -5e-4, 9.99e-4, -9.99e-4, 1e-3, -1e-3, 1.001e-3,
 IDS = ["CA-148", "10", "9", "Z", "s", "S2", "a b", "Å-1", "0x1F", "B"]
 VOLTS = [208, 240, 120, 277.5]
 PHASES = [0, 120, -120, 30]
+# save / resume routes: the network alone (string, text buffer, file on disk), inside a whole Simulator (the
+# Interface is then the one `update_scheduler` hands to a new algorithm), and the two in-memory copies
+VIAS = ["str", "buf", "file", "sim", "sim_buf", "deepcopy", "pickle"]
+VIA_W = [5, 3, 2, 5, 2, 1, 1]
+# the package's site factories (ids registered in an order that is not their sorted order; caltech_acn mixes two
+# EVSE types), with the arguments they are called with
+SITES = [("caltech_acn", {}), ("caltech_acn", {}), ("caltech_acn", {"voltage": 240, "transformer_cap": 80}),
+         ("caltech_acn", {"basic_evse": True}), ("jpl_acn", {}), ("office001_acn", {}),
+         ("simple_acn", {"station_ids": ["PS-9", "PS-10", "ps-1", "PS-1"], "evse_type": "ClipperCreek"}),
+         ("simple_acn", {"station_ids": ["b", "a", "C"], "evse_type": "AeroVironment", "voltage": 240})]
 
 
 # ------------------------------------------------------------------ generation
@@ -208,6 +254,9 @@ def _gen_net(rng, kind):
         kinds.append(k)
         regs.append({"id": sid, "kind": k, "V": rng.choice(VOLTS), "ph": rng.choice(PHASES)})
     regs.insert(rng.randint(0, len(regs)), {"id": "S", "V": rng.choice(VOLTS), "ph": rng.choice(PHASES)})
+    for r in regs:
+        if rng.random() < 0.06:
+            r["json"] = True  # the EVSE itself is saved and resumed before it is registered
     if rng.random() < 0.1:
         # an id registered twice: the earlier EVSE (explicit kind) is replaced by the later one
         j = rng.randrange(len(regs))
@@ -234,13 +283,32 @@ def _gen_net(rng, kind):
     return {"regs": regs, "cons": cons, "queries": queries}
 
 
-def _regs(case):
-    """the registration calls with the primary's kind filled in"""
+def _hist(case):
+    """the history of the network before its first use, in order: `register_evse` calls (the primary's kind
+    filled in) and save / resume steps `{"restore": via}`"""
     net = case.get("net")
     if not net:
-        return [{"id": "S", "kind": case["kind"], "V": 208, "ph": 0}]
-    return [{"id": r["id"], "kind": r.get("kind", case["kind"]), "V": r.get("V", 208), "ph": r.get("ph", 0)}
-            for r in net["regs"]]
+        return [{"id": _primary(case), "kind": case["kind"], "V": 208, "ph": 0}]
+    out = []
+    for r in net["regs"]:
+        if "restore" in r:
+            out.append({"restore": r["restore"]})
+        else:
+            e = {"id": r["id"], "kind": r.get("kind", case["kind"]), "V": r.get("V", 208), "ph": r.get("ph", 0)}
+            if r.get("json"):
+                e["json"] = True
+            out.append(e)
+    return out
+
+
+def _regs(case):
+    """the registration calls with the primary's kind filled in"""
+    return [r for r in _hist(case) if "restore" not in r]
+
+
+def _primary(case):
+    """the station an operation without "at" is addressed to"""
+    return case.get("primary", "S")
 
 
 def _final_kinds(regs):
@@ -251,19 +319,15 @@ def _final_kinds(regs):
     return out
 
 
-def _gen_case(rng, exact=False, single=False):
-    kind = _gen_kind(rng)
-    case = {"kind": kind}
-    if not single and rng.random() < 0.75:
-        case["net"] = _gen_net(rng, kind)
-    kinds = _final_kinds(_regs(case))
-    others = [s for s in kinds if s != "S"]
+def _gen_ops(rng, kinds, primary, exact=False, lo=1, hi=8):
+    """operations addressed to the stations of a network; `kinds`: id -> kind of the EVSE answering under it"""
+    others = [s for s in kinds if s != primary]
     ops = []
-    n = rng.randint(1, 8)
+    n = rng.randint(lo, hi)
     k = 0
     for _ in range(n):
         r = rng.random()
-        at = rng.choice(others) if others and rng.random() < 0.45 else "S"
+        at = rng.choice(others) if others and rng.random() < 0.45 else primary
         tk = kinds[at]
         # pilots sit at the boundaries of the target's own set or of another station's set
         pk = tk if (not others or rng.random() < 0.65) else kinds[rng.choice(list(kinds))]
@@ -279,7 +343,7 @@ def _gen_case(rng, exact=False, single=False):
             op = {"op": "set_pilot", "p": _gen_pilot(rng, pk), "V": rng.choice([208, 240, 120, 277.5]),
                   "T": rng.choice([1, 5, 15, 0.5]), "nu": round(rng.gauss(0, 0.5), 4)}
         elif r < 0.9:
-            prev = [o for o in ops if o["op"] == "plugin" and o.get("at", "S") == at]
+            prev = [o for o in ops if o["op"] == "plugin" and o.get("at", primary) == at]
             if prev and rng.random() < 0.4:
                 # re-plug the occupant itself, or a rebuilt EV carrying the same session id
                 op = {"op": "plugin", "ev": prev[-1]["ev"], "same": rng.choice(["object", "copy"])}
@@ -288,11 +352,127 @@ def _gen_case(rng, exact=False, single=False):
                 k += 1
         else:
             op = {"op": "unplug"}
-        if at != "S":
+        if at != primary:
             op["at"] = at
         ops.append(op)
-    case["ops"] = ops
+    return ops
+
+
+def _via(rng):
+    return rng.choices(VIAS, VIA_W)[0]
+
+
+def _add_restores(rng, case, p_regs=0.3, p_cons=0.3, p_ops=0.35):
+    """save / resume steps anywhere in the history: between the registrations (also before the first one),
+    between / after the constraint edits (= before the first use), between the operations, after the last"""
+    net = case.get("net")
+    if net is not None and "site" not in net and rng.random() < p_regs:
+        for _ in range(rng.choice([1, 1, 2])):
+            net["regs"].insert(rng.randint(0, len(net["regs"])), {"restore": _via(rng)})
+    if net is not None and rng.random() < p_cons:
+        for _ in range(rng.choice([1, 1, 2])):
+            net["cons"].insert(rng.randint(0, len(net["cons"])), {"op": "restore", "via": _via(rng)})
+    if rng.random() < p_ops:
+        for _ in range(rng.choice([1, 1, 2])):
+            case["ops"].insert(rng.randint(0, len(case["ops"])), {"op": "restore", "via": _via(rng)})
     return case
+
+
+def _gen_case(rng, exact=False, single=False):
+    kind = _gen_kind(rng)
+    case = {"kind": kind}
+    if not single and rng.random() < 0.75:
+        case["net"] = _gen_net(rng, kind)
+    kinds = _final_kinds(_regs(case))
+    case["ops"] = _gen_ops(rng, kinds, "S", exact)
+    return _add_restores(rng, case)
+
+
+# ---- the package's site factories
+
+_SITE_CACHE = {}
+
+
+def _build_site(site):
+    from acnportal.acnsim.network import sites
+    return getattr(sites, site["factory"])(**site.get("kwargs", {}))
+
+
+def _kind_of(evse):
+    """the constructor parameters of a registered EVSE, as a case `kind`"""
+    from acnportal.acnsim.models.evse import EVSE, DeadbandEVSE, FiniteRatesEVSE
+    if isinstance(evse, FiniteRatesEVSE):
+        return {"t": "finite", "rates": [I.enc(float(x)) for x in evse.allowable_rates]}
+    if isinstance(evse, DeadbandEVSE):
+        return {"t": "deadband", "db": I.enc(float(evse._deadband_end)), "max": I.enc(float(evse._max_rate))}
+    if isinstance(evse, EVSE):
+        return {"t": "cont", "min": I.enc(float(evse._min_rate)), "max": I.enc(float(evse._max_rate))}
+    raise ValueError(type(evse).__name__)
+
+
+def _site_regs(site):
+    """what the factory registers — id, EVSE parameters, voltage, phase per station, in registration order — read
+    off a freshly built factory network that never went through a save (the ground truth of the site cases)"""
+    key = json.dumps(site, sort_keys=True)
+    if key not in _SITE_CACHE:
+        net = _build_site(site)
+        _SITE_CACHE[key] = [{"id": sid, "kind": _kind_of(e), "V": float(net._voltages[i]), "ph": float(net._phase_angles[i])}
+                            for i, (sid, e) in enumerate(net._EVSEs.items())]
+    return copy.deepcopy(_SITE_CACHE[key])
+
+
+def _site_case(rng, factory, kwargs, exact=False):
+    site = {"factory": factory, "kwargs": kwargs}
+    regs = _site_regs(site)
+    kinds = _final_kinds(regs)
+    ids = list(kinds)
+    # the operations go to a handful of stations, of every EVSE type of the site
+    by_kind = {}
+    for sid in rng.sample(ids, len(ids)):
+        by_kind.setdefault(json.dumps(kinds[sid], sort_keys=True), []).append(sid)
+    picked = [v[0] for v in by_kind.values()]
+    picked += rng.sample([s for s in ids if s not in picked], min(3, len(ids) - len(picked)))
+    primary = picked[0]
+    queries = list(picked)
+    rng.shuffle(queries)
+    if rng.random() < 0.35:
+        queries.insert(rng.randint(0, len(queries)), rng.choice(["nope", "CA-000", ""]))
+    case = {"kind": kinds[primary], "primary": primary,
+            "net": {"site": site, "regs": regs, "cons": [], "queries": queries}}
+    case["ops"] = _gen_ops(rng, {s: kinds[s] for s in picked}, primary, exact, lo=2, hi=6)
+    if rng.random() < 0.5:
+        # the lowest non-zero value another EVSE type of the site advertises (6 A of the AeroVironment list at a
+        # ClipperCreek station …): accepted exactly where it is advertised
+        lows = sorted({([v for v in _spec_info(k)["allowable"] if v > 0] or [0.0])[0] for k in kinds.values()})
+        op = {"op": "set_pilot", "p": rng.choice(lows), "V": 208, "T": 5, "nu": 0.0}
+        at = rng.choice(picked)
+        if at != primary:
+            op["at"] = at
+        case["ops"].append(op)
+    return _add_restores(rng, case, p_cons=0.6, p_ops=0.6)
+
+
+def _site_corpus():
+    """the stock Caltech ACN (AeroVironment and ClipperCreek stations, ids not registered in sorted order), saved
+    and resumed before its first use: every station type is sent the lowest step of the other one"""
+    site = {"factory": "caltech_acn", "kwargs": {}}
+    try:
+        regs = _site_regs(site)
+    except Exception:  # noqa  (a tree whose factory does not build: the generated site cases report it)
+        return []
+    out = []
+    for via, where in (("sim", "cons"), ("str", "ops")):
+        ops = [{"op": "set_pilot", "p": 6, "V": 208, "T": 5, "nu": 0, "at": "CA-493"},
+               {"op": "set_pilot", "p": 8, "V": 208, "T": 5, "nu": 0, "at": "CA-493"},
+               {"op": "set_pilot", "p": 6, "V": 208, "T": 5, "nu": 0, "at": "CA-324"},
+               {"op": "set_pilot", "p": 7, "V": 208, "T": 5, "nu": 0}]
+        case = {"kind": _final_kinds(regs)["CA-308"], "primary": "CA-308",
+                "net": {"site": site, "regs": copy.deepcopy(regs),
+                        "cons": [{"op": "restore", "via": via}] if where == "cons" else [],
+                        "queries": ["CA-493", "CA-308", "CA-148", "CA-324", "nope"]},
+                "ops": ops if where == "cons" else ops[:2] + [{"op": "restore", "via": via}] + ops[2:]}
+        out.append(case)
+    return out
 
 
 def corpus():
@@ -331,13 +511,52 @@ def corpus():
                  "cons": [], "queries": ["S", "B"]},
          "ops": [{"op": "set_pilot", "p": 12.5, "V": 208, "T": 5, "nu": 0},
                  {"op": "set_pilot", "p": 12.5, "V": 208, "T": 5, "nu": 0, "at": "B"}]},
-    ]
+        # a simulation that is saved and resumed: three different EVSEs registered in an order that is not the
+        # sorted order of their ids; whole-simulator save before the first use, network-only saves (string, text
+        # buffer) between the uses with an EV connected and a pilot applied; every station is probed with the
+        # values the OTHER ones advertise
+        {"kind": {"t": "finite", "rates": [16, 8, 8]}, "primary": "PS-03",
+         "net": {"regs": [{"id": "PS-03", "V": 208, "ph": 0},
+                          {"id": "PS-01", "kind": {"t": "cont", "min": 6, "max": 40}, "V": 208, "ph": 0},
+                          {"id": "PS-02", "kind": {"t": "deadband", "db": 6, "max": 32}, "V": 208, "ph": 0}],
+                 "cons": [{"op": "add", "ids": ["PS-02", "PS-03"], "limit": 40, "name": "c0"},
+                          {"op": "restore", "via": "sim"}],
+                 "queries": ["PS-02", "PS-03", "nope", "PS-01"]},
+         "ops": [{"op": "set_pilot", "p": 40, "V": 208, "T": 5, "nu": 0},
+                 {"op": "set_pilot", "p": 16, "V": 208, "T": 5, "nu": 0},
+                 {"op": "plugin", "ev": {"session": "a", "station": "PS-01", "arrival": 0, "departure": 5, "requested": 10, "batt": {"two": False, "cap": 40, "init": 5, "maxp": 7}}, "at": "PS-01"},
+                 {"op": "set_pilot", "p": 40, "V": 208, "T": 5, "nu": 0, "at": "PS-01"},
+                 {"op": "restore", "via": "str"},
+                 {"op": "set_pilot", "p": 3, "V": 208, "T": 5, "nu": 0, "at": "PS-01"},
+                 {"op": "set_pilot", "p": 8, "V": 208, "T": 5, "nu": 0, "at": "PS-01"},
+                 {"op": "restore", "via": "buf"},
+                 {"op": "set_pilot", "p": 3, "V": 208, "T": 5, "nu": 0, "at": "PS-02"},
+                 {"op": "unplug", "at": "PS-01"}]},
+        # save / resume in the middle of the registrations (also of the still empty network), through a file
+        {"kind": {"t": "deadband", "db": 8, "max": 32},
+         "net": {"regs": [{"restore": "str"},
+                          {"id": "Z", "kind": {"t": "finite", "rates": [0, 8, 16]}, "V": 240, "ph": 0},
+                          {"id": "S", "V": 240, "ph": 120},
+                          {"restore": "file"},
+                          {"id": "B", "kind": {"t": "cont", "min": 0, "max": "inf"}, "V": 208, "ph": -120},
+                          {"restore": "sim_buf"}],
+                 "cons": [], "queries": ["B", "S", "Z"]},
+         "ops": [{"op": "set_pilot", "p": "inf", "V": 208, "T": 5, "nu": 0, "at": "B"},
+                 {"op": "set_pilot", "p": 16, "V": 240, "T": 5, "nu": 0, "at": "Z"},
+                 {"op": "valid", "p": 7.9991, "atol": ATOL}]},
+    ] + _site_corpus()
 
 
 def generate(rng, n, tier):
     out = []
     for i in range(n):
-        out.append(_gen_case(rng, exact=(i % 6 == 5)))
+        if i % 30 == 11:
+            # a network of one of the package's site factories (registered in the factory's order, which is not
+            # the sorted order of the ids), saved and resumed before / between its uses
+            factory, kwargs = rng.choice(SITES)
+            out.append(_site_case(rng, factory, kwargs, exact=(i % 4 == 3)))
+        else:
+            out.append(_gen_case(rng, exact=(i % 6 == 5)))
     return out
 
 
@@ -427,23 +646,123 @@ def _advertised(snap, i, sid):
     return snap["allow"][i], snap["max"][i], snap["min"][i]
 
 
+START = datetime(2020, 1, 1)
+
+
+def _restore(net, via):
+    """save and resume: the network that comes back, and an Interface on it (for a whole-simulator save: the
+    one `update_scheduler` hands to a newly attached algorithm)"""
+    from acnportal.acnsim import Simulator, EventQueue
+    from acnportal.algorithms import UncontrolledCharging
+    cls = type(net)
+    if via == "str":
+        new = cls.from_json(net.to_json())
+    elif via == "buf":
+        b = io.StringIO()
+        net.to_json(b)
+        b.seek(0)
+        new = cls.from_json(b)
+    elif via == "file":
+        with tempfile.TemporaryDirectory(prefix="c13_") as d:
+            path = os.path.join(d, "network.json")
+            net.to_json(path)
+            new = cls.from_json(path)
+    elif via in ("sim", "sim_buf"):
+        sim = Simulator(net, UncontrolledCharging(), EventQueue(), START, verbose=False)
+        if via == "sim":
+            sim2 = Simulator.from_json(sim.to_json())
+        else:
+            b = io.StringIO()
+            sim.to_json(b)
+            b.seek(0)
+            sim2 = Simulator.from_json(b)
+        alg = UncontrolledCharging()
+        sim2.update_scheduler(alg)
+        return sim2.network, alg.interface
+    elif via == "deepcopy":
+        new = copy.deepcopy(net)
+    elif via == "pickle":
+        new = pickle.loads(pickle.dumps(net))
+    else:
+        raise ValueError(via)
+    return new, _new_interface(new)
+
+
+_FRESH = {}
+
+
+def _fresh_accepts(kind, v):
+    """does a newly constructed EVSE with the case's parameters for the station (never registered, never saved)
+    take `v` through the public entry point"""
+    key = (os.environ.get("ACN_REPO", ""), json.dumps(kind, sort_keys=True), repr(v))
+    if key not in _FRESH:
+        fresh = I.make_evse(kind, "fresh")
+        try:
+            fresh.set_pilot(v, 208, 5)
+            _FRESH[key] = bool(fresh.current_pilot == v)
+        except Exception:  # noqa
+            _FRESH[key] = False
+    return _FRESH[key]
+
+
+def _adv_check(net, snap, kinds):
+    """advertised values are themselves accepted: every value the network / Interface reports for a station is
+    sent to THAT station (the registered object's predicate, and the public entry point of a fresh EVSE built
+    from the case's parameters for that id, incl. inf)"""
+    adv = []
+    for i, sid in enumerate(snap["ids"]):
+        if sid not in kinds or i >= len(snap["allow"]) or i >= len(snap["max"]) or i >= len(snap["min"]):
+            continue
+        allow, mx, mn = _advertised(snap, i, sid)
+        kind = kinds[sid]
+        vals = set(list(allow) + [mx] + ([0.0] if kind["t"] != "cont" else [mn]))
+        for v in sorted(vals):
+            ok = bool(net._EVSEs[sid]._valid_rate(v))
+            adv.append([sid, I.enc(v), ok and _fresh_accepts(kind, v)])
+    return adv
+
+
+def _states(net):
+    return [[s, _obs_state(e)] for s, e in net._EVSEs.items()]
+
+
 def run_impl(case):
     from acnportal.acnsim.network import ChargingNetwork, Current
-    regs = _regs(case)
+    hist = _hist(case)
+    regs = [r for r in hist if "restore" not in r]
     netspec = case.get("net") or {}
-    queries = netspec.get("queries", ["S"])
+    P = _primary(case)
+    queries = netspec.get("queries", [P])
     kinds = _final_kinds(regs)
-    net = ChargingNetwork()
-    live = _new_interface(net)
     snaps = []
-    for r in regs:
+    if netspec.get("site"):
+        # the factory registers the stations and adds the site's constraints; the description is read once it
+        # is built, then after every save / resume step that follows
+        net = _build_site(netspec["site"])
+        live = _new_interface(net)
+        k0 = max(k for k, r in enumerate(hist) if "restore" not in r)
+        snap = _snapshot(net, queries, live)
+        snap.update({"k": k0, "reg_err": None})
+        snaps.append(snap)
+        todo = list(enumerate(hist))[k0 + 1:]
+    else:
+        net = ChargingNetwork()
+        live = _new_interface(net)
+        todo = list(enumerate(hist))
+    for k, r in todo:
         err = None
         try:
-            net.register_evse(I.make_evse(r["kind"], r["id"]), r["V"], r["ph"])
+            if "restore" in r:
+                net, live = _restore(net, r["restore"])
+            else:
+                evse = I.make_evse(r["kind"], r["id"])
+                if r.get("json"):
+                    evse = type(evse).from_json(evse.to_json())
+                net.register_evse(evse, r["V"], r["ph"])
         except Exception as e:  # noqa
             err = I.err_name(e)
         snap = _snapshot(net, queries, live)
-        snap["reg_err"] = err
+        snap.update({"k": k, "reg_err": err})
         snaps.append(snap)
     cons_err = []
     for c in netspec.get("cons", []):
@@ -452,6 +771,8 @@ def run_impl(case):
                 net.add_constraint(Current(list(c["ids"])), c["limit"], name=c["name"])
             elif c["op"] == "remove":
                 net.remove_constraint(c["name"])
+            elif c["op"] == "restore":
+                net, live = _restore(net, c["via"])
             else:
                 net.update_constraint(c["name"], Current(list(c["ids"])), c["limit"])
             cons_err.append(None)
@@ -459,32 +780,25 @@ def run_impl(case):
             cons_err.append(I.err_name(e))
     post_cons = _snapshot(net, queries, live)
 
-    evse = net._EVSEs["S"]
-    info = _own_info(evse)
-    # advertised values are themselves accepted: every value the network / Interface reports for a station is
-    # sent to THAT station (the registered object's predicate, and the public entry point on a fresh EVSE of
-    # the same kind, incl. inf)
-    adv = []
-    for i, sid in enumerate(post_cons["ids"]):
-        allow, mx, mn = _advertised(post_cons, i, sid)
-        kind = kinds[sid]
-        vals = set(list(allow) + [mx] + ([0.0] if kind["t"] != "cont" else [mn]))
-        for v in sorted(vals):
-            ok = bool(net._EVSEs[sid]._valid_rate(v))
-            fresh = I.make_evse(kind, sid)
-            try:
-                fresh.set_pilot(v, 208, 5)
-                ok_sp = fresh.current_pilot == v
-            except Exception:  # noqa
-                ok_sp = False
-            adv.append([sid, I.enc(v), ok and ok_sp])
-    info["advertised_accepted"] = adv
+    info = _own_info(net._EVSEs[P])
+    info["advertised_accepted"] = _adv_check(net, post_cons, kinds)
 
     steps = []
     with I.noise_source() as ns:
         for o in case["ops"]:
             op = o["op"]
-            at = o.get("at", "S")
+            if op == "restore":
+                before = _states(net)
+                err = None
+                try:
+                    net, live = _restore(net, o["via"])
+                except Exception as e:  # noqa
+                    err = I.err_name(e)
+                snap = _snapshot(net, queries, live)
+                steps.append({"restore": o["via"], "err": err, "before": before, "states": _states(net), "snap": snap,
+                              "advertised_accepted": _adv_check(net, snap, kinds)})
+                continue
+            at = o.get("at", P)
             evse = net._EVSEs[at]
             ns.value = o.get("nu", 0.0)
             if op == "valid":
@@ -515,6 +829,7 @@ def run_impl(case):
     final = [dict(id=s, **_obs_state(e)) for s, e in net._EVSEs.items()]
     # the description does not depend on pilots / occupants
     post = _snapshot(net, queries, live)
+    info["advertised_accepted_end"] = _adv_check(net, post, kinds)
     return {"info": info, "steps": steps, "snaps": snaps, "post_cons": post_cons, "post": post,
             "cons_err": cons_err, "final": final}
 
@@ -522,8 +837,12 @@ def run_impl(case):
 # ------------------------------------------------------------------ model
 
 def model_request(case):
+    P = _primary(case)
     ops = []
     for o in case["ops"]:
+        if o["op"] == "restore":
+            ops.append({"op": "restore"})
+            continue
         if o["op"] == "valid":
             m = {"op": "valid", "p": f2b(I.num(o["p"])), "atol": f2b(o["atol"])}
         elif o["op"] == "set_pilot":
@@ -533,13 +852,15 @@ def model_request(case):
             m = {"op": "plugin", "ev": I.ev_wire(o["ev"])}
         else:
             m = {"op": "unplug"}
-        if o.get("at", "S") != "S":
+        if o.get("at", P) != P:
             m["at"] = o["at"]
         ops.append(m)
-    req = {"kind": I.kind_wire(case["kind"]), "ops": ops}
+    req = {"kind": I.kind_wire(case["kind"]), "primary": P, "ops": ops}
     if case.get("net"):
-        req["net"] = {"regs": [{"id": r["id"], "kind": I.kind_wire(r["kind"])} for r in _regs(case)],
-                      "queries": list(case["net"].get("queries", ["S"]))}
+        # save / resume steps between the constraint edits are not sent: constraint edits are outside the model
+        req["net"] = {"hist": [{"restore": True} if "restore" in r else {"id": r["id"], "kind": I.kind_wire(r["kind"])}
+                               for r in _hist(case)],
+                      "queries": list(case["net"].get("queries", [P]))}
     return req
 
 
@@ -563,10 +884,14 @@ def _close_list(a, mb):
     return len(a) == len(mb) and all(close(x, b2f(y)) for x, y in zip(a, mb))
 
 
+def _entry_name(r):
+    return f"save / resume via {r['restore']}" if "restore" in r else f"register_evse({r['id']!r})"
+
+
 def _cmp_snap(a, m, out, where):
     """implementation snapshot against the model's description of the same registration prefix"""
     if a.get("reg_err") is not None:
-        out.append(f"{where}: register_evse raised {a['reg_err']}")
+        out.append(f"{where}: raised {a['reg_err']}")
     if a["ids"] != m["ids"]:
         out.append(f"{where}: station order impl={a['ids']} model={m['ids']}")
         return
@@ -609,15 +934,36 @@ def compare(case, obs, model):
     ma = [b2f(x) for x in mi["allowable"]]
     if len(ma) != len(ii["allowable"]) or not all(close(a, b) for a, b in zip(ii["allowable"], ma)):
         out.append(f"allowable impl={ii['allowable']} model={ma}")
-    # the advertised description after every registration; unchanged by constraint edits and operations
-    if len(obs["snaps"]) != len(model["snaps"]):
-        out.append(f"{len(obs['snaps'])} registrations observed, {len(model['snaps'])} modelled")
-    for k, (a, m) in enumerate(zip(obs["snaps"], model["snaps"])):
-        _cmp_snap(a, m, out, f"after registration {k}")
+    # the advertised description after every entry of the history (registration or save / resume); unchanged by
+    # constraint edits, operations and further save / resume steps
+    hist = _hist(case)
+    if len(hist) != len(model["snaps"]):
+        out.append(f"{len(hist)} history entries, {len(model['snaps'])} modelled")
+    for a in obs["snaps"]:
+        k = a.get("k", 0)
+        if k < len(model["snaps"]):
+            _cmp_snap(a, model["snaps"][k], out, f"after history entry {k} ({_entry_name(hist[k]) if k < len(hist) else '?'})")
     if model["snaps"]:
         _cmp_snap(obs["post_cons"], model["snaps"][-1], out, "after the constraint edits")
-        _cmp_snap(obs["post"], model["snaps"][-1], out, "after the operations")
+        _cmp_snap(obs["post"], model.get("last", model["snaps"][-1]), out, "after the operations")
+    if len(obs["steps"]) != len(model["steps"]):
+        out.append(f"{len(obs['steps'])} steps observed, {len(model['steps'])} modelled")
     for i, (a, m) in enumerate(zip(obs["steps"], model["steps"])):
+        if "restore" in a:
+            if not m.get("restore"):
+                out.append(f"step {i}: save / resume observed, model answered {m}")
+                continue
+            if a["err"] is not None:
+                out.append(f"step {i}: save / resume ({a['restore']}) raised {a['err']}")
+            _cmp_snap(a["snap"], m["snap"], out, f"step {i} (after save / resume via {a['restore']})")
+            if [x[0] for x in a["states"]] != [x["id"] for x in m["states"]]:
+                out.append(f"step {i}: stations after save / resume impl={[x[0] for x in a['states']]} model={[x['id'] for x in m['states']]}")
+            else:
+                for (sid, sa), sm in zip(a["states"], m["states"]):
+                    if not close(I.num(sa["pilot"]), b2f(sm["pilot"])):
+                        out.append(f"step {i}: {sid} pilot after save / resume impl={sa['pilot']} model={b2f(sm['pilot'])}")
+                    _cmp_ev(sa["ev"], sm["ev"], out, f"step {i} ({sid} after save / resume)")
+            continue
         if "valid" in a:
             if a["valid"] != m.get("valid"):
                 out.append(f"step {i}: valid impl={a['valid']} model={m.get('valid')} op={case['ops'][i]}")
@@ -629,7 +975,7 @@ def compare(case, obs, model):
             out.append(f"step {i}: pilot impl={a['pilot']} model={b2f(m['pilot'])}")
         _cmp_ev(a["ev"], m["ev"], out, f"step {i}")
         if a["others_changed"]:
-            out.append(f"step {i}: stations {a['others_changed']} changed by an operation on {case['ops'][i].get('at', 'S')}")
+            out.append(f"step {i}: stations {a['others_changed']} changed by an operation on {case['ops'][i].get('at', _primary(case))}")
     fa, fm = obs["final"], model["final"]
     if [s["id"] for s in fa] != [s["id"] for s in fm]:
         out.append(f"final stations impl={[s['id'] for s in fa]} model={[s['id'] for s in fm]}")
@@ -756,25 +1102,50 @@ def _oracle_snap(snap, regs_prefix, fails, where):
         fails.append({"kind": "advertised_info_changed_by_consumer", "detail": f"{where}: writing into the InfrastructureInfo returned by infrastructure_info() changed the network's containers"})
 
 
+def _regs_upto(hist, k):
+    """the registrations among the first k + 1 entries of the history"""
+    return [r for r in hist[:k + 1] if "restore" not in r]
+
+
 def oracle(case, obs):
     fails = []
-    regs = _regs(case)
+    hist = _hist(case)
+    regs = [r for r in hist if "restore" not in r]
     kinds = _final_kinds(regs)
+    P = _primary(case)
     info = obs["info"]
-    # advertised values accepted, per station
-    for sid, v, ok in info["advertised_accepted"]:
-        if not ok:
-            fails.append({"kind": "advertised_value_rejected", "detail": f"value {v} advertised for station {sid!r} is rejected by that station"})
-    # cache / interface truthful: after every registration, after the constraint edits, after the operations
-    for k, snap in enumerate(obs["snaps"]):
+    # advertised values accepted, per station: before the first use, after every save / resume, at the end
+    advs = [("before the first use", info["advertised_accepted"]), ("after the operations", info.get("advertised_accepted_end", []))]
+    advs += [(f"after the save / resume of step {i} (via {st['restore']})", st["advertised_accepted"])
+             for i, st in enumerate(obs["steps"]) if "restore" in st]
+    for where, lst in advs:
+        for sid, v, ok in lst:
+            if not ok:
+                fails.append({"kind": "advertised_value_rejected", "detail": f"{where}: value {v} advertised for station {sid!r} is rejected by that station"})
+    # cache / interface truthful: after every entry of the history, after the constraint edits, after the operations
+    for snap in obs["snaps"]:
+        k = snap.get("k", 0)
+        name = _entry_name(hist[k]) if k < len(hist) else "?"
         if snap.get("reg_err") is not None:
-            fails.append({"kind": "unexpected_exception", "detail": f"register_evse #{k}: {snap['reg_err']}"})
-        _oracle_snap(snap, regs[:k + 1], fails, f"after registration {k}")
+            fails.append({"kind": "restore_failed" if "restore" in hist[k] else "unexpected_exception",
+                          "detail": f"history entry {k} ({name}): {snap['reg_err']}"})
+        _oracle_snap(snap, _regs_upto(hist, k), fails, f"after history entry {k} ({name})")
+    for c, e in zip((case.get("net") or {}).get("cons", []), obs["cons_err"]):
+        if c["op"] == "restore" and e is not None:
+            fails.append({"kind": "restore_failed", "detail": f"save / resume via {c['via']} between the constraint edits: {e}"})
     _oracle_snap(obs["post_cons"], regs, fails, "after the constraint edits")
     _oracle_snap(obs["post"], regs, fails, "after the operations")
     for i, (o, st) in enumerate(zip(case["ops"], obs["steps"])):
         op = o["op"]
-        at = o.get("at", "S")
+        if op == "restore":
+            if st["err"] is not None:
+                fails.append({"kind": "restore_failed", "detail": f"op {i}: save / resume via {o['via']}: {st['err']}"})
+            # every station — looked up by ID — is in the state it was saved in
+            if dict((s, x) for s, x in st["before"]) != dict((s, x) for s, x in st["states"]):
+                fails.append({"kind": "restore_changed_station_state", "detail": f"op {i} (via {o['via']}): before={st['before']} after={st['states']}"})
+            _oracle_snap(st["snap"], regs, fails, f"after the save / resume of op {i} (via {o['via']})")
+            continue
+        at = o.get("at", P)
         kind = kinds[at]
         if op == "valid":
             atol_eff = o["atol"] if kind["t"] != "finite" else ATOL
@@ -824,14 +1195,33 @@ def _shared_minmax(case):
     return False
 
 
+def _restores(case):
+    """(where, via) of every save / resume step of the case"""
+    net = case.get("net") or {}
+    out = [("regs", r["restore"]) for r in net.get("regs", []) if "restore" in r]
+    out += [("cons", c["via"]) for c in net.get("cons", []) if c["op"] == "restore"]
+    out += [("ops", o["via"]) for o in case["ops"] if o["op"] == "restore"]
+    return out
+
+
+def _order_matters(case):
+    """the final registration order is not the sorted order of the ids and the permuted positions do not all
+    carry the same description (what a save / resume that re-orders either side would mix up)"""
+    kinds = _final_kinds(_regs(case))
+    ids = list(kinds)
+    return any(a != b and _spec_info(kinds[a]) != _spec_info(kinds[b]) for a, b in zip(ids, sorted(ids)))
+
+
 def nontrivial(case, obs):
     kinds = _final_kinds(_regs(case))
+    if _restores(case) and _order_matters(case):
+        return True
     for o, st in zip(case["ops"], obs["steps"]):
         if o["op"] in ("valid", "set_pilot"):
             p = I.num(o["p"])
             if isinstance(p, float) and math.isnan(p):
                 continue
-            if any(abs(p - b) <= 2.5e-3 for b in _boundaries(kinds[o.get("at", "S")])):
+            if any(abs(p - b) <= 2.5e-3 for b in _boundaries(kinds[o.get("at", _primary(case))])):
                 return True
             if o["op"] == "set_pilot" and st.get("err") == "InvalidRate" and st["before"]["ev"] is not None:
                 return True
@@ -841,9 +1231,9 @@ def nontrivial(case, obs):
 def features(case, obs):
     regs = _regs(case)
     kinds = _final_kinds(regs)
-    out = ["kind:" + case["kind"]["t"], "net:stations=" + str(len(kinds))]
+    out = ["kind:" + case["kind"]["t"], "net:stations=" + (str(len(kinds)) if len(kinds) < 8 else "8+")]
     if len(kinds) > 1:
-        out += ["net:other_kind:" + k["t"] for s, k in kinds.items() if s != "S"]
+        out += sorted(set("net:other_kind:" + k["t"] for s, k in kinds.items() if s != _primary(case)))
         if _shared_minmax(case):
             out.append("net:same_class_minmax_other_set")
         specs = [_spec_info(k) for k in kinds.values()]
@@ -859,11 +1249,36 @@ def features(case, obs):
         out.append("net:unknown_id_queried")
     if obs["post"]["infra"]["err"]:
         out.append("net:infrastructure_info_err:" + obs["post"]["infra"]["err"])
+    net = case.get("net") or {}
+    if net.get("site"):
+        out.append("site:" + net["site"]["factory"] + ("(basic)" if net["site"].get("kwargs", {}).get("basic_evse") else ""))
+    if any(r.get("json") for r in regs):
+        out.append("reg:evse_through_json")
+    rs = _restores(case)
+    out.append("restores=" + str(min(len(rs), 3)))
+    for where, via in rs:
+        out.append("restore:in_" + where)
+        out.append("restore:via:" + via)
+    if rs and _order_matters(case):
+        out.append("restore:order_not_sorted_and_stations_differ")
+    if net.get("regs") and "restore" in net["regs"][0]:
+        out.append("restore:of_empty_network")
+    if any("restore" in r for r in net.get("regs", [])[1:-1]):
+        out.append("restore:between_registrations")
     for o, st in zip(case["ops"], obs["steps"]):
+        if o["op"] == "restore":
+            out.append("op:restore")
+            if any(x[1]["ev"] is not None for x in st["before"]):
+                out.append("restore:with_ev_connected")
+            if any(I.num(x[1]["pilot"]) != 0 for x in st["before"]):
+                out.append("restore:with_pilot_applied")
+            if st["err"]:
+                out.append("restore_err:" + st["err"])
+            continue
         if o["op"] == "set_pilot" and o["p"] == "inf":
             out.append("set_pilot_inf")
         out.append("op:" + o["op"] + (":same_" + o["same"] if o.get("same") else ""))
-        if o.get("at", "S") != "S":
+        if o.get("at", _primary(case)) != _primary(case):
             out.append("op_at_other_station")
         if "err" in st and st["err"]:
             out.append("err:" + st["err"])
